@@ -65,6 +65,32 @@ package eddsa
 //@ + ghost keyok = callresult && same(callarg0, &pub.A)
 //@ cut after call SetBytes #2
 //@ + ghost hram = *callarg0
+//@ + invariant[hram-is-the-digest] hsum && same(callarg1, resultof_Sum)
+//@ ghost hreset = false
+//@ ghost nw = 0
+//@ ghost b1 = false
+//@ ghost b2 = false
+//@ ghost b3 = false
+//@ ghost b4 = false
+//@ ghost hsum = false
+//@ cut after call Reset #1
+//@ + ghost hreset = true
+//@ cut after call Bytes #1
+//@ + ghost b1 = same(callarg0, &sig.R.X)
+//@ cut after call Bytes #2
+//@ + ghost b2 = same(callarg0, &sig.R.Y)
+//@ cut after call Bytes #3
+//@ + ghost b3 = same(callarg0, &pub.A.X)
+//@ cut after call Bytes #4
+//@ + ghost b4 = same(callarg0, &pub.A.Y)
+//@ cut before call Write #*
+//@ + invariant[hash-input] hreset && b1 && b2 && b3 && b4 && (nw == 0 ==> same(callarg1, viewof(sigRX))) && (nw == 1 ==> same(callarg1, viewof(sigRY))) && (nw == 2 ==> same(callarg1, viewof(sigAX))) && (nw == 3 ==> same(callarg1, viewof(sigAY))) && (nw == 4 ==> same(callarg1, message)) && nw <= 4
+//@ cut after call Write #*
+//@ + ghost nw = nw + 1
+//@ cut before call Sum #1
+//@ + invariant[hash-complete] nw == 5 && isnil(callarg1)
+//@ cut after call Sum #1
+//@ + ghost hsum = true
 //@ cut after call ScalarMultiplication #1
 //@ + ghost c1 = same(callarg0, &lhs) && same(callarg1, &curveParams.Base) && *callarg2 == be(sigBin[sizeFr:2*sizeFr])
 //@ cut after call ScalarMultiplication #2
